@@ -319,6 +319,9 @@ impl Updater<'_> {
   ) -> Result<()> {
     Reorg::detect_reorg(&block, self.height, self.index)?;
 
+    #[cfg(feature = "verif")]
+    crate::verif::crash_point("block.before");
+
     let start = Instant::now();
     let mut sat_ranges_written = 0;
     let mut outputs_in_block = 0;
@@ -348,6 +351,9 @@ impl Updater<'_> {
         &mut outputs_in_block,
       )?;
     }
+
+    #[cfg(feature = "verif")]
+    crate::verif::crash_point("block.after_utxo");
 
     if self.index.index_runes && self.height >= self.index.settings.first_rune_height() {
       let mut outpoint_to_rune_balances = wtx.open_table(OUTPOINT_TO_RUNE_BALANCES)?;
@@ -387,6 +393,9 @@ impl Updater<'_> {
 
       rune_updater.update()?;
     }
+
+    #[cfg(feature = "verif")]
+    crate::verif::crash_point("block.after_runes");
 
     height_to_block_header.insert(&self.height, &block.header.store())?;
 
@@ -871,11 +880,21 @@ impl Updater<'_> {
     Index::increment_statistic(&wtx, Statistic::SatRanges, self.sat_ranges_since_flush)?;
     self.sat_ranges_since_flush = 0;
     Index::increment_statistic(&wtx, Statistic::Commits, 1)?;
+
+    #[cfg(feature = "verif")]
+    crate::verif::crash_point("commit.before");
+
     wtx.commit()?;
+
+    #[cfg(feature = "verif")]
+    crate::verif::crash_point("commit.after_first");
 
     // Commit twice since due to a bug redb will only reuse pages freed in the
     // transaction before last.
     self.index.begin_write()?.commit()?;
+
+    #[cfg(feature = "verif")]
+    crate::verif::crash_point("commit.after_second");
 
     Reorg::update_savepoints(self.index, self.height)?;
 
